@@ -300,6 +300,28 @@ func c08Run(run *ev.Run) {
 			run.Sample(c08Case{Chains: cl, AllowUnmatched: false, Headers: headers[1]})
 		}
 	})
+	// uncommon but legal header values (lists, blanks, case, control characters): the criterion is equality with, or
+	// prefix of, the header value as it is - for all lists of one and two chains
+	odd := []map[string]string{{"x-t": "a,v"}, {"x-t": "v,a"}, {"x-t": "a, v"}, {"x-t": " v"}, {"x-t": "v "}, {"x-t": "V"}, {"x-t": "\tv"}, {"x-t": "v\x00"},
+		{"x-t": "a;v"}, {"x-t": "\"v\""}, {"x-u": "a,w"}, {"x-u": " w"}, {"x-t": "a,v", "x-u": "a, w"}, {"X-T": "v"}, {"x-t ": "v"}}
+	par.For(n+n*n, run.Expired, func(i int) {
+		var cl []c08Chain
+		if i < n {
+			cl = []c08Chain{chains[i]}
+		} else {
+			cl = []c08Chain{chains[(i-n)/n], chains[(i-n)%n]}
+		}
+		for _, au := range []bool{false, true} {
+			inst := c08NewInstance(c08Case{Chains: cl, AllowUnmatched: au})
+			var earlier []map[string]string
+			for _, h := range odd {
+				c08CheckOn(run, inst, c08Case{Chains: cl, AllowUnmatched: au, Headers: h, Earlier: earlier})
+				earlier = append(earlier, h)
+				atomic.AddInt64(&evals, 1)
+			}
+		}
+	})
+	run.Extra["odd_header_maps"] = len(odd)
 	// length-4 lists over a reduced per-chain set (thorough)
 	if run.Tier == "thorough" {
 		red := []c08Chain{{"none", "a"}, {"none", "d"}, {"eq", "ao"}, {"eq", "a"}, {"prefix", "da"}, {"prefix-u", "oa"}, {"EQ", "d"}, {"prefix", "a"}}
